@@ -25,17 +25,22 @@ PROP = dict(
                 'varintFloatPrecisionMaxRelativeError(), the sweep checks it '
                 'against the 23/10/4-bit widths documented in the header; '
                 'not exhaustive over 2^64 patterns or over array contents'),
-    rule=('case = (precision | auto + requested error, exponent mode, output '
-          'background fill, array descriptor); arrays are 1..64 explicit '
-          'elements or a bulk shape (one binade, spread <= 255, spread >= 256, '
-          'specials interleaved, free mix; 1..64 elements, ~9% of them '
-          '65..2000) expanded from a seed with up to 8 explicit overrides; '
+    rule=('case = (precision, or in 3/8 of the cases EncodeAuto + requested '
+          'error; exponent mode; output background fill; array descriptor); '
+          'arrays are 1..64 explicit elements (optionally folded into a 256- '
+          'or 4-binade window) or a bulk shape (one binade, spread <= 255, '
+          'spread >= 256, specials interleaved, free mix; 1..64 elements, ~9% '
+          'of them 65..2000, 8000 in the thorough tier) expanded from a seed '
+          'with up to 8 explicit overrides; deliberate carry patterns are '
+          'enabled in 1/4 of the arrays; an EncodeAuto result is held first '
+          'to the guarantee of the precision it reports, then to the '
+          'requested error; '
           'non-trivial = at least one normal value and (lossy precision or '
           'auto, or at least one special, or exponent spread >= 2); distinct '
           'by hash of (precision/auto, mode, requested error, all 8-byte '
           'patterns)'),
-    quick=dict(configs=['asan', 'rel'], cases=1200000, maxlen=160),
-    thorough=dict(configs=['asan', 'rel'], cases=30000000, maxlen=400,
+    quick=dict(configs=['asan', 'rel'], cases=5000000, maxlen=160),
+    thorough=dict(configs=['asan', 'rel'], cases=12000000, maxlen=400,
                   fuzz_s=120, setmax=1 << 23),
     case_timeout=20,
     required_classes=(
